@@ -25,7 +25,7 @@ import (
 func init() {
 	register(&Prop{
 		ID:   "C12",
-		Rule: "per case 16 or 64 goroutines are released together behind a barrier and call Apply 4 times each, under the race detector, with GOMAXPROCS cycling through 2, 4 and 16; modes: (a) a different document per goroutine, (b) ONE shared parsed tree for all goroutines, (c) shared tree + one shared *Options + shared *url.URL, (d) shared tree with sub-element roots and every log-flag set (32) across goroutines; both pagination algorithms. Documents contain every construct that makes the pipeline rewrite nodes (javascript: anchors, font, noscript/lazy images, picture without img, embeds, twitter quotes, figures, data tables) plus a pager. Every concurrent result is compared with the result of the same (root, options) computed sequentially before. Each call records (start, end) from the monotonic clock so the run can report how concurrent it actually was. Non-trivial = a case with overlapping calls; distinct = distinct (mode, goroutines, GOMAXPROCS, observed max overlap bucket).",
+		Rule: "per case 16 or 64 goroutines are released together behind a barrier and call Apply 4 times each, under the race detector, with GOMAXPROCS cycling through 2, 4 and 16; modes: (e) the byte entry points ApplyForReader / ApplyForFile on different pages whose text has to be decoded and normalised (decomposed accents, soft hyphens, legacy charsets), (a) a different document per goroutine, (b) ONE shared parsed tree for all goroutines, (c) shared tree + one shared *Options + shared *url.URL, (d) shared tree with sub-element roots and every log-flag set (32) across goroutines; both pagination algorithms. Documents contain every construct that makes the pipeline rewrite nodes (javascript: anchors, font, noscript/lazy images, picture without img, embeds, twitter quotes, figures, data tables) plus a pager. Every concurrent result is compared with the result of the same (root, options) computed sequentially before. Each call records (start, end) from the monotonic clock so the run can report how concurrent it actually was. Non-trivial = a case with overlapping calls; distinct = distinct (mode, goroutines, GOMAXPROCS, observed max overlap bucket).",
 		Assumptions: []string{
 			"the race detector sees only accesses that were executed; happens-before based, so a reported race is real regardless of timing",
 			"interleavings are those the scheduler produced under barrier release with 2/4/16 Ps; not enumerated",
@@ -48,6 +48,8 @@ func init() {
 }
 
 type c12Job struct {
+	src  string // mode 4: the bytes of a page, given to ApplyForReader / ApplyForFile
+	file string
 	root *html.Node
 	opts *distiller.Options
 	tree int // tree identity, for the overlap statistics
@@ -56,7 +58,7 @@ type c12Job struct {
 
 func runC12(c *Ctx, idx int) {
 	r := c.RNG(idx, 1)
-	mode := idx % 4
+	mode := idx % 5
 	G := 16
 	if idx%8 >= 4 {
 		G = 64
@@ -88,6 +90,25 @@ func runC12(c *Ctx, idx int) {
 	jobs := make([][]c12Job, G)
 	var srcs []string
 	switch mode {
+	case 4: // the byte entry points: different pages, each with text that the front end has to decode and normalise
+		for g := 0; g < G; g++ {
+			src, pg := mkDoc()
+			src = strings.Replace(src, "</body>", "<h2>U\u0308ber\u00adra\u00adschung cafe\u0301</h2><p>"+strings.Repeat("Stra\u00dfen\u00adbahn re\u0301sume\u0301 na\u00efve \u00a0 co\u00f6perate ", 6+g%5)+"</p></body>", 1)
+			if g%4 == 3 {
+				src = legacyCharsetDoc(r)
+			}
+			if g < 2 {
+				srcs = append(srcs, src)
+			}
+			for k := 0; k < callsPer; k++ {
+				j := c12Job{src: src, tree: 1000 + g, opts: &distiller.Options{OriginalURL: mustURL(pg.PageURL), PaginationAlgo: distiller.PaginationAlgo(k % 2)}}
+				if k == 3 {
+					j.file = filepath.Join(c.scratch, fmt.Sprintf("c12.%d.%d.html", c.Shard, g))
+					os.WriteFile(j.file, []byte(src), 0o644)
+				}
+				jobs[g] = append(jobs[g], j)
+			}
+		}
 	case 0: // different documents
 		for g := 0; g < G; g++ {
 			src, pg := mkDoc()
@@ -151,7 +172,16 @@ func runC12(c *Ctx, idx int) {
 				s := time.Since(t0)
 				var res *distiller.Result
 				var err error
-				pn, _ := c.Guard(func() { res, err = distiller.Apply(j.root, j.opts) })
+				pn, _ := c.Guard(func() {
+					switch {
+					case j.file != "":
+						res, err = distiller.ApplyForFile(j.file, j.opts)
+					case j.src != "":
+						res, err = distiller.ApplyForReader(strings.NewReader(j.src), j.opts)
+					default:
+						res, err = distiller.Apply(j.root, j.opts)
+					}
+				})
 				e := time.Since(t0)
 				spans[g] = append(spans[g], span{s, e, j.tree})
 				if pn != "" || err != nil || res == nil {
@@ -174,7 +204,12 @@ func runC12(c *Ctx, idx int) {
 	if len(bads) == 0 {
 		for g := range jobs {
 			for k := range jobs[g] {
-				cr := c.apply(jobs[g][k].root, jobs[g][k].opts)
+				var cr callResult
+				if jobs[g][k].src != "" {
+					cr = c.applyReader(jobs[g][k].src, jobs[g][k].opts)
+				} else {
+					cr = c.apply(jobs[g][k].root, jobs[g][k].opts)
+				}
 				if !c.usable(cr) {
 					return
 				}
